@@ -32,6 +32,7 @@ def _rich_expr(kind: str, direct: Tuple[str, ...], cl: Tuple[str, ...]) -> Any:
       'udo:f'        out := f(direct[0])            (f is defined by build(): f(x dataset) returns dataset is x + x)
       'calc:Me_k'    out := direct[0][calc Me_9 := Me_k + cl[0] ...]           (component + scalars inside a clause)
       'mul:c'        out := direct[0] * c
+      'jcalc:a1,a2,Me_x,Me_y'   out := inner_join(direct[0] as a1, direct[1] as a2 calc Me_9 := a1#Me_x + Me_y)
     """
     a = P.A()
     op, _, par = kind.partition(":")
@@ -42,6 +43,17 @@ def _rich_expr(kind: str, direct: Tuple[str, ...], cl: Tuple[str, ...]) -> Any:
             using=None, **P.KW)
         j.isLast = True
         return j
+    if op == "jcalc":           # join with a body: membership of an alias followed by a plain component inside calc
+        a1, a2, mx, my = par.split(",")
+        j = a.JoinOp(op="inner_join", clauses=[
+            P.binop(P.var(d), "as", a.Identifier(value=al, kind="DatasetID", **P.KW)) for d, al in zip(direct, (a1, a2))],
+            using=None, **P.KW)
+        rhs = P.binop(P.binop(a.Identifier(value=a1, kind="DatasetID", **P.KW), "#",
+                              a.Identifier(value=mx, kind="ComponentID", **P.KW)), "+", P.var(my))
+        node = P.clause(j, "calc", [a.UnaryOp(op="measure", operand=a.Assignment(
+            left=a.Identifier(value="Me_9", kind="ComponentID", **P.KW), op=":=", right=rhs, **P.KW), **P.KW)])
+        node.isLast = True
+        return node
     if op == "memb":
         return P.binop(P.var(direct[0]), "#", a.Identifier(value=par, kind="ComponentID", **P.KW))
     if op == "udo":
@@ -183,6 +195,9 @@ def show(stmts: Sequence[Stmt]) -> str:
             rhs = f"{direct[0]}[filter " + " and ".join(f"Me_1 ? {c}" for c in cl) + "]"
         elif op == "join":
             rhs = "inner_join(" + ", ".join(f"{d} as {al}" for d, al in zip(direct, par.split(","))) + ")"
+        elif op == "jcalc":
+            a1, a2, mx, my = par.split(",")
+            rhs = f"inner_join({direct[0]} as {a1}, {direct[1]} as {a2} calc Me_9 := {a1}#{mx} + {my})"
         elif op == "memb":
             rhs = f"{direct[0]}#{par}"
         elif op == "udo":
@@ -242,6 +257,10 @@ def rich_scripts() -> List[Tuple[Tuple[str, ...], List[Stmt]]]:
     for a1, a2 in (("d1", "d2"), ("O2", "d2"), ("d1", "O2"), ("O2", "R3"), ("R3", "O2"), ("DS_3", "O2"), ("sc_a", "O2")):
         specials.append((("alias",), ("S1", False, f"join:{a1},{a2}", ("DS_1", "DS_2"), ())))
     specials.append((("is_dataset",), ("S1", False, "memb:Me_1", ("DS_1",), ())))
+    specials.append((("is_dataset", "alias", "is_from_regular_aggregation"),
+                     ("S1", False, "jcalc:d1,d2,Me_1,Me_2", ("DS_1", "DS_2"), ())))
+    specials.append((("is_dataset", "alias", "is_from_regular_aggregation"),
+                     ("S1", False, "jcalc:O2,d2,Me_1,Me_2", ("DS_1", "DS_2"), ())))
     specials.append((("udos",), ("S1", False, "udo:f_x", ("DS_1",), ())))
     specials.append((("udos",), ("S1", False, "udo:O2", ("DS_1",), ())))            # UDO named like a dataset
     specials.append((("is_from_regular_aggregation", "is_dataset"), ("S1", False, "calc:Me_1", ("DS_1",), ("sc_a",))))
